@@ -92,20 +92,21 @@ PROPS["C03"] = {
 
 # the life-cycle machine explored on its own: every schedule of API calls within the bound, each
 # transition of the abstract state graph replayed call by call (runner `sched`)
-LIFE = lambda tier, sws_q, sws_t: {
+LIFE = lambda tier, sws_q, sws_t, cases_q="{1, 2, 3, 4}": {
     "module": "MC_Life",
-    "constants": {"MaxObj": q(tier, 2, 3), "MaxSteps": q(tier, 4, 5), "SwIdx": q(tier, sws_q, sws_t), "CaseIdx": "{1, 2, 3, 4}"},
+    "constants": {"MaxObj": q(tier, 2, 3), "MaxSteps": q(tier, 4, 5), "SwIdx": q(tier, sws_q, sws_t),
+                  "CaseIdx": q(tier, cases_q, "{1, 2, 3, 4}")},
     "invariants": ["EmitDefs", "DenSound", "ValidateLaw", "ReloadPlain", "OnceOnly", "SwBlind", "Bounded"],
     "props": ["Pure"], "view": "View", "forms": ["life"], "workers": 8}
 
 PROPS["C12"] = {
     "title": "Loading, optimising and matching are deterministic and pure",
-    "models": lambda tier: [LIFE(tier, "{1, 2}", "{1, 2, 3}")],
+    "models": lambda tier: [LIFE(tier, "{1, 2}", "{1, 2, 3}", "{1, 3}")],
     "second_process": "reverse",
     "gens": lambda tier: [{"topic": "pure", "n": q(tier, 400, 8000)}, {"topic": "bigq", "n": q(tier, 8, 60)},
                           {"topic": "bigp", "n": q(tier, 3, 6)}],
     "rules": ["den", "print_differs", "opt_panic", "match_panic", "reopt_differs"],
-    "chunk": 300,
+    "chunk": 60,
 }
 
 PROPS["C13"] = {
